@@ -139,6 +139,22 @@ def structured_search(ctx, budget_cases):
     return None
 
 
+def minimise(found):
+    """replace a failing random case by the smallest failing variant the shrinker finds (same block, same oracle)."""
+    try:
+        py4hw = common.quiet_import()
+        if found.get('kind_of_case') == 'request':
+            run = {'W': found['widths'], 'cmds': [(k, a) for k, a in found['cmds']]}
+            m = L.shrink_request(py4hw, run)
+            if m: return dict(L.req_replay(m[0], m[1]), shrunk_from=found['stream'])
+        elif found.get('kind_of_case') == 'response':
+            m = L.shrink_response(py4hw, {'cfg': found['cfg']})
+            if m: return dict(L.resp_replay(m[0], m[1]), shrunk_from=str(found['cfg']['requests']))
+    except Exception as ex:
+        found = dict(found, shrink_error=repr(ex))
+    return found
+
+
 def size0_finding(ctx):
     """known finding C20-F1: CMDResponse with size = 0 (createHILUART's padding outputs) cannot produce '=!'."""
     py4hw = common.quiet_import()
@@ -199,7 +215,7 @@ def run(ctx):
         res = structured_search(ctx, 400 if q else 3000)
         if res: found = res[1]
     if found is not None:
-        ctx.violation(found)
+        ctx.violation(minimise(found))
     elif broken:
         what = ('translator rejected %s: %s' % (missing, {k: ctx.gen['errors'].get(k) for k in missing}) if missing else
                 'proof obligation no longer checks: %s in %s' % (r.get('lemma'), r.get('file')) if not r['ok'] else
